@@ -9,3 +9,4 @@ pub mod r9;
 pub mod r5;
 pub mod r10;
 pub mod r6;
+pub mod r7;
